@@ -895,7 +895,7 @@ fn icy_strategy() -> BoxedStrategy<IcyCase> {
         0u8..8,
         // 0..=2 fonts in slots 0..=3; the large ones cost milliseconds to load, so most files carry none
         prop_oneof![
-            160 => Just(Vec::new()),
+            240 => Just(Vec::new()),
             2 => vec((0u8..=3, 1u8..=3), 1..=2),
             2 => vec((0u8..=3, prop_oneof![3 => 4u8..=6, 1 => 7u8..=8]), 1..=1),
             1 => ((0u8..=3, 4u8..=6), (0u8..=3, 1u8..=3)).prop_map(|(a, b)| vec![a, b]),
